@@ -529,7 +529,9 @@ def check_io(pid, tier, seed, scratch, replay):
     else:
         rep.rule = ("(i) as C17(i) with a non-EOF error injected at every offset (with and without data in the failing read) and "
                     "over-long lines in the model (MAXTOK=3); invariants FaultReported / NoSilentTruncation / LongLineReported. "
-                    "(ii) end to end: every fault offset 0..len of every parseable sample (TTML: inside the root element), every "
+                    "(ii) end to end: every fault offset 0..len of every parseable sample (TTML: inside the root element), the failing read "
+                    "with and without data and with two error values - the injector's own and io.ErrUnexpectedEOF, which a demultiplexer or "
+                    "io.ReadFull may mistake for the end of the input -, every "
                     "fault offset of every writer's output, unfaulted write = complete document, lines of 2^16, 2^16+1, 70000, 2^20 "
                     "bytes, file helpers on missing / uncreatable paths. Non-trivial = distinct fault points.")
     rep.assumptions = ["a failed stream keeps failing (the injected error is sticky), as io.Reader implementations do",
